@@ -207,7 +207,7 @@ def _work(job):
         res.update(status=r['status'], model=None, time=r['time'], backend=r['solver'])
         return res
     # 1. plain attempt, short
-    r = _z3_check(to_smt2(o), 2500, want_model)
+    r = _z3_check(full_text(), 6000, want_model)
     res['runs'].append({k: v for k, v in r.items() if k != 'model'})
     status = r['status']
     model = r.get('model')
@@ -232,7 +232,7 @@ def _work(job):
         if r3['status'] == 'unsat':
             status = 'unsat'
     if status == 'unknown':
-        r5 = _z3_check(text, 30000 if tier == 'thorough' else 12000, want_model)
+        r5 = _z3_check(full_text() if False else text, 30000 if tier == 'thorough' else 15000, want_model)
         res['runs'].append({k: v for k, v in r5.items() if k != 'model'})
         if r5['status'] != 'unknown':
             status, model = r5['status'], r5.get('model')
@@ -244,7 +244,7 @@ def _work(job):
             status = 'unsat'
         elif r4['status'] == 'sat':
             cand = r4.get('model')
-    if status == 'unknown':
+    if status == 'unknown' and (cand is None or tier == 'thorough'):
         r2 = _z3_check(text, Z3_TIMEOUT_MS if tier == 'thorough' else 25000, want_model, seed=7)
         res['runs'].append({k: v for k, v in r2.items() if k != 'model'})
         if r2['status'] != 'unknown':
